@@ -336,7 +336,13 @@ pub fn parse_rootdefinition_constantbuffer(
         cb_ir.lang_binding.set = Some(binding_group);
     }
 
-    assert!(!attribute_result.is_bindless);
+    // Only arrays of resources can be bindless
+    if attribute_result.is_bindless {
+        return Err(TyperError::GlobalAttributeUnknown(
+            "bindless".to_string(),
+            cb.name.location,
+        ));
+    }
 
     cb_ir.members = members;
 
